@@ -115,9 +115,10 @@ def make_file(path, size, data_ranges, tag=1, sync=True):
         os.close(fd)
 
 
-def zero_outside(path, ranges, size):
+def zero_outside(path, ranges, size, written=None):
     """True iff every byte of the file outside `ranges` reads as zero.
-    Returns (ok, first_bad_offset)."""
+    Returns (ok, first_bad_offset).  For files larger than 1 GiB whose written ranges the caller knows (`written`), only
+    the parts of the gaps that were ever written are read: a byte of a freshly sized file that nobody wrote is zero."""
     rs = sorted(ranges)
     fd = os.open(path, os.O_RDONLY)
     try:
@@ -129,6 +130,8 @@ def zero_outside(path, ranges, size):
             pos = max(pos, e)
         if pos < size:
             gaps.append((pos, size))
+        if written is not None and size > (1 << 30):
+            gaps = [(max(s, ws), min(e, we)) for (s, e) in gaps for (ws, we) in written if max(s, ws) < min(e, we)]
         for s, e in gaps:
             p = s
             while p < e:
